@@ -1309,6 +1309,21 @@ Section Correct.
     pose proof (env_hash fs o _ _ m p1 HG1 Hd1 Hp1) as Q1. pose proof (env_hash fs o _ _ m p2 HG2 Hd2 Hp2) as Q2.
     repeat split; congruence.
   Qed.
+  (* ---- two side conditions discharged for sub-classes of programs / file systems *)
+  (* no module uses `from pkg import maybe_submodule`: ProbeFresh holds for every cache and file system *)
+  Lemma ProbeFresh_noprobes : (forall m v o, probes m v o = []) -> forall c o fs, ProbeFresh c o fs.
+  Proof. intros H c o fs m e x s _ _ d Hd. rewrite H in Hd. inversion Hd. Qed.
+
+  (* if what the analysis sees of a file were determined by what is hashed (i.e. if the kind .py/.pyi were part of the
+     hash, which is the repair of F7), KindStable would hold for every cache satisfying the invariant *)
+  Lemma KindStable_if_hash_determines_view :
+    (forall m s s', content_of m s = content_of m s' -> view_of m s = view_of m s') ->
+    forall K c o fs, StoreOK K c -> KindStable c o fs.
+  Proof.
+    intros H K c o fs HC m e x s L Hs.
+    destruct (load_ok _ _ _ _ _ _ _ HC L) as [s' [d [Hs' [_ [_ [_ [_ [Hh [_ [EOK _]]]]]]]]]].
+    rewrite Hs in Hs'; inversion Hs'; subst s'. destruct EOK as [_ [_ [A3 _]]]. apply H. congruence.
+  Qed.
 End Correct.
 
 (* ------------------------------------------------------------------ packaged contract and final statements *)
@@ -1444,4 +1459,119 @@ Section Packaged.
       apply andb_true_iff in H as [H1 H2]. rewrite forallb_forall in H1, H2.
       intros y. split; intros Hy. apply mem_In. auto. apply mem_In. auto.
   Qed.
+
+  (* ---- exact characterisation of two side conditions: the boolean functions DECIDE them (iff), and a failure is exactly a
+          concrete witness in the cache *)
+  Lemma forallb_false_ex : forall A (f : A -> bool) l, forallb f l = false -> exists a, In a l /\ f a = false.
+  Proof.
+    induction l as [|a l IH]; simpl; intros H; try discriminate.
+    destruct (f a) eqn:E; simpl in H. destruct (IH H) as [b [Hb Fb]]. eauto. eauto.
+  Qed.
+
+  Lemma In_lookup' : forall (fs : FS) m s, FSOK fs -> In (m, s) fs -> lookup fs m = Some s.
+  Proof.
+    unfold FSOK. induction fs as [|[k v] t]; simpl; intros; try tauto. inversion H; subst.
+    destruct H0 as [H0|H0].
+    - inversion H0; subst. rewrite Nat.eqb_refl; auto.
+    - destruct (Nat.eqb m k) eqn:E; auto. apply Nat.eqb_eq in E; subst. exfalso. apply H3.
+      apply in_map_iff. exists (k, s); auto.
+  Qed.
+
+  Lemma probe_fresh_complete : forall c o fs, FSOK fs ->
+    ProbeFresh content_of view_of probes ign_of c o fs -> Model.probe_fresh content_of view_of probes ign_of c o fs = true.
+  Proof.
+    intros c o fs HFS HP. unfold Model.probe_fresh. apply forallb_forall. intros [m s] Hin. simpl.
+    destruct (Model.load_meta content_of ign_of c o fs m) as [[e x]|] eqn:L; auto.
+    apply forallb_forall. intros d Hd. destruct (inG fs d) eqn:G; auto. simpl. apply mem_In.
+    eapply HP; eauto. apply In_lookup'; auto.
+  Qed.
+
+  (* F6 exactly: the side condition fails iff some module with a reused entry probes a name that IS a module of the build now
+     and is not among the dependencies recorded in that entry (the probe's result changed since the entry was written) *)
+  Lemma F6_exact_lemma : forall c o fs, FSOK fs ->
+    (~ ProbeFresh content_of view_of probes ign_of c o fs <->
+     exists m s e x d, In (m, s) fs /\ Model.load_meta content_of ign_of c o fs m = Some (e, x) /\
+                       In d (probes m (view_of m s) o) /\ inG fs d = true /\ ~ In d (m_deps e)).
+  Proof.
+    intros c o fs HFS. split.
+    - intros HN. destruct (Model.probe_fresh content_of view_of probes ign_of c o fs) eqn:B.
+      + exfalso. apply HN. apply probe_fresh_sound; auto.
+      + unfold Model.probe_fresh in B. apply forallb_false_ex in B as [[m s] [Hin F]]. simpl in F.
+        destruct (Model.load_meta content_of ign_of c o fs m) as [[e x]|] eqn:L; try discriminate.
+        apply forallb_false_ex in F as [d [Hd Fd]]. apply orb_false_iff in Fd as [F1 F2].
+        apply negb_false_iff in F1. exists m, s, e, x, d. repeat split; auto.
+        intro X. apply mem_In in X. congruence.
+    - intros [m [s [e [x [d [Hin [L [Hd [HG HN]]]]]]]]] HP. apply HN. eapply HP; eauto. apply In_lookup'; auto.
+  Qed.
+
+  Lemma kind_stable_complete : forall c o fs, FSOK fs ->
+    KindStable content_of view_of ign_of c o fs -> Model.kind_stable content_of view_of ign_of c o fs = true.
+  Proof.
+    intros c o fs HFS HK. unfold Model.kind_stable. apply forallb_forall. intros [m s] Hin. simpl.
+    destruct (Model.load_meta content_of ign_of c o fs m) as [[e x]|] eqn:L; auto.
+    apply Nat.eqb_eq. eapply HK; eauto. apply In_lookup'; auto.
+  Qed.
+
+  (* F7 exactly: the side condition fails iff some module with a reused entry is seen differently (text or kind) now than at
+     the stamp the entry records *)
+  Lemma F7_exact_lemma : forall c o fs, FSOK fs ->
+    (~ KindStable content_of view_of ign_of c o fs <->
+     exists m s e x, In (m, s) fs /\ Model.load_meta content_of ign_of c o fs m = Some (e, x) /\
+                     view_of m (m_stamp e) <> view_of m s).
+  Proof.
+    intros c o fs HFS. split.
+    - intros HN. destruct (Model.kind_stable content_of view_of ign_of c o fs) eqn:B.
+      + exfalso. apply HN. apply kind_stable_sound; auto.
+      + unfold Model.kind_stable in B. apply forallb_false_ex in B as [[m s] [Hin F]]. simpl in F.
+        destruct (Model.load_meta content_of ign_of c o fs m) as [[e x]|] eqn:L; try discriminate.
+        exists m, s, e, x. repeat split; auto. apply Nat.eqb_neq; auto.
+    - intros [m [s [e [x [Hin [L HN]]]]]] HK. apply HN. eapply HK; eauto. apply In_lookup'; auto.
+  Qed.
+
+  Lemma equiv_b_iff : forall a b, Model.equiv_b a b = true <-> (forall y, In y a <-> In y b).
+  Proof.
+    intros a b. unfold Model.equiv_b. rewrite andb_true_iff, !forallb_forall. split.
+    - intros [H1 H2] y. split; intros Hy; apply mem_In; auto.
+    - intros H. split; intros y Hy; apply mem_In; apply H; auto.
+  Qed.
+
+  Lemma scc_stable_complete : forall c o fs,
+    SccFresh content_of view_of imports probes sccs_of ign_of pkg_of parent_of c o fs ->
+    Model.scc_stable content_of view_of imports probes sccs_of ign_of pkg_of parent_of c o fs = true.
+  Proof.
+    intros c o fs HS. unfold Model.scc_stable. apply forallb_forall. intros S HIn.
+    destruct (forallb (fun m => match Model.load_meta content_of ign_of c o fs m with Some _ => true | None => false end) S) eqn:V; auto.
+    simpl. apply forallb_forall. intros m Hm.
+    destruct (Model.load_meta content_of ign_of c o fs m) as [[e x]|] eqn:L; auto.
+    apply equiv_b_iff. eapply HS; eauto. intros m' Hm'. rewrite forallb_forall in V. specialize (V m' Hm').
+    destruct (Model.load_meta content_of ign_of c o fs m'); congruence.
+  Qed.
+
+  (* F11 exactly: the side condition fails iff some SCC of the current graph has a valid meta for every member and one of
+     those entries was written for a different member set *)
+  Lemma F11_exact_lemma : forall c o fs,
+    (~ SccFresh content_of view_of imports probes sccs_of ign_of pkg_of parent_of c o fs <->
+     exists S m e x, In S (sccs_of (Model.depmap content_of view_of imports probes ign_of pkg_of parent_of c o fs)) /\
+                     (forall m', In m' S -> Model.load_meta content_of ign_of c o fs m' <> None) /\
+                     In m S /\ Model.load_meta content_of ign_of c o fs m = Some (e, x) /\
+                     ~ (forall y, In y (m_scc e) <-> In y S)).
+  Proof.
+    intros c o fs. split.
+    - intros HN. destruct (Model.scc_stable content_of view_of imports probes sccs_of ign_of pkg_of parent_of c o fs) eqn:B.
+      + exfalso. apply HN. apply scc_stable_sound; auto.
+      + unfold Model.scc_stable in B. apply forallb_false_ex in B as [S [HIn F]].
+        apply orb_false_iff in F as [F1 F2]. apply negb_false_iff in F1. rewrite forallb_forall in F1.
+        apply forallb_false_ex in F2 as [m [Hm Fm]].
+        destruct (Model.load_meta content_of ign_of c o fs m) as [[e x]|] eqn:L; try discriminate.
+        exists S, m, e, x. split; auto. split.
+        { intros m' Hm'. specialize (F1 m' Hm'). destruct (Model.load_meta content_of ign_of c o fs m'); congruence. }
+        split; auto. split; auto. intro X. apply equiv_b_iff in X. congruence.
+    - intros [S [m [e [x [HIn [ALLV [Hm [L HN]]]]]]]] HS. apply HN. eapply HS; eauto.
+  Qed.
+
+  Lemma p_KindStable_if_hash_determines_view :
+    (forall m s s', content_of m s = content_of m s' -> view_of m s = view_of m s') ->
+    forall c o fs, Proofs.CacheOK content_of view_of imports probes implicits analyze reach thash blocker c ->
+    KindStable content_of view_of ign_of c o fs.
+  Proof. intros H c o fs [K HC]. eapply KindStable_if_hash_determines_view; eauto. Qed.
 End Packaged.
